@@ -29,7 +29,7 @@ Definition e_qu (q : Q) : list Z := [Qnum q; Zpos (Qden q)].
 
 (* 400: solve.  in: vars (des w scale)*, cons (l r gap)*
    out: 1 positions cost flags nsat |list| |store| active g_pos g_lm g_mag g_tie g_tlm
-          feas_ok cost_ok part_ok kkt_ok floor(gap*10^12)   (the proved checkers of Vpsc/Kkt.v on the exit state)
+          feas_ok cost_ok part_ok kkt_ok floor(gap*10^12) inactive   (inactive = the final self.inactive list; the proved checkers of Vpsc/Kkt.v on the exit state)
       | 0 k   (out of fuel: 1 traversal, 2 satisfy loop, 3 solve loop) *)
 Definition api_solve (a : list Z) : list Z :=
   match d_inst a with
@@ -43,6 +43,7 @@ Definition api_solve (a : list Z) : list Z :=
             ++ e_qu (g_pos g) ++ e_qu (g_lm g) ++ e_qu (g_mag g) ++ e_nat (g_tie g) ++ e_nat (g_tlm g)
             ++ e_bool (state_feas_ok vs cs st) ++ e_bool (state_cost_ok vs st cost)
             ++ e_bool (part_ok vs st) ++ e_bool (kkt_ok vs cs st) ++ [Qfloor (state_gap vs cs st * (1000000000000 # 1))]
+            ++ e_list e_nat (s_inact st)
       | Fuel k => [0; Z.of_nat k]
       end
   | None => bad_input
